@@ -1,7 +1,26 @@
 import WcModel.Properties.C18
+import WcModel.Properties.C18all
 #print axioms WcModel.C18.posix_tables_agree
 #print axioms WcModel.C18.helper_twins_agree
 #print axioms WcModel.C18.helper_twin_flags_agree
 #print axioms WcModel.C18.strip_certificate
 #print axioms WcModel.C18.fullRange_latin1
 #print axioms WcModel.C18.nonvacuous
+#print axioms WcModel.C18.outcomeTwin_of_nPP
+#print axioms WcModel.C18.bytes_str_twin
+#print axioms WcModel.C18.bytes_str_twin'
+#print axioms WcModel.C18.ofFlags_withBytes
+#print axioms WcModel.C18.bytes_str_twin_ofFlags
+#print axioms WcModel.C18.bytes_str_same_matches
+#print axioms WcModel.C18.bytes_str_same_fullmatch
+#print axioms WcModel.C18.bytes_str_winDrive
+#print axioms WcModel.C18.outcomeDir_of_fill
+#print axioms WcModel.C18.bytes_str_dir
+#print axioms WcModel.C18.bytes_str_dir'
+#print axioms WcModel.C18.OutcomeDir.toTwin
+#print axioms WcModel.C18.driveDir_winDrive
+#print axioms WcModel.C18.driveDir_default
+#print axioms WcModel.C18.bytes_str_winDrive_dir
+#print axioms WcModel.C18.twin_nonvacuous
+#print axioms WcModel.C18.twin_nonvacuous_neg
+#print axioms WcModel.C18.latin1_needed
